@@ -201,7 +201,7 @@ Proof.
     match goal with |- context [2 <? ?x] => assert (E23 : (2 <? x) = true) by (apply Z.ltb_lt; lia); rewrite E23 end.
     rewrite (back_app acc _ 3), (back_app acc _ 2), (back_app acc _ 1) by (cbn; lia).
     cbn [rev app nth_error Nat.pred]. replace (1 =? 0) with false by reflexivity. cbn [negb].
-    rewrite range_arg_mk by lia. f_equal. f_equal. rewrite <- Hlast.
+    rewrite range_arg_x_mk, range_arg_mk by lia. f_equal. f_equal. rewrite <- Hlast.
     replace (b + (m - 1) * d) with last by lia. apply wr_id. now apply small_inr.
 Qed.
 
